@@ -60,6 +60,8 @@ def check_C03(ctx, rep):
     _worklists_in(ctx, rep, ['nfa_algorithms.nfa_to_dfa'])
     _effect_on(ctx, rep, ['nfa_algorithms.nfa_to_dfa'])
     effect.check_guarded_reads(ctx, rep, F(ctx, 'nfa_algorithms.nfa_to_dfa'))
+    state.check_hidden_state(ctx, rep, modules=['nfa_algorithms'])
+    work.check_marker_alias(ctx, rep, ctx.prog.func('nfa_algorithms.nfa_to_dfa'))
 
 
 def check_C04(ctx, rep):
@@ -71,6 +73,9 @@ def check_C04(ctx, rep):
     if not work.check_partition_fixpoint(ctx, rep, ctx.prog.func('dfa_algorithms.dfa_quotient')):
         raise AnalysisError('quotient refinement loop vanished')
     _worklists_in(ctx, rep, ['dfa_algorithms.dfa_hopfcroft'])
+    mins = F(ctx, 'dfa_algorithms.dfa_minimize', 'dfa_algorithms.dfa_quotient', 'dfa_algorithms.dfa_hopfcroft')
+    work.check_one_shot_iterators(ctx, rep, mins)
+    misc.check_minimiser_siblings(ctx, rep, mins)
     if not misc.check_slots(ctx, rep, ctx.prog.func('dfa_algorithms.dfa_from_table')):
         rep.note('dfa_from_table no longer builds its blocks in a placeholder list (R-SLOT has no instance)')
     _effect_on(ctx, rep, ['dfa_algorithms.dfa_minimize', 'dfa_algorithms.dfa_from_table', 'dfa_algorithms.dfa_quotient', 'dfa_algorithms.dfa_hopfcroft'])
@@ -235,6 +240,7 @@ def check_C13(ctx, rep):
         raise AnalysisError('fewer than 5 state-name chains decided')
     iorules.check_regexp_io(ctx, rep)
     iorules.check_cfg_io(ctx, rep)
+    misc.check_minimiser_siblings(ctx, rep, F(ctx, 'dfa_algorithms.dfa_minimize', 'dfa_algorithms.dfa_quotient', 'dfa_algorithms.dfa_hopfcroft'))
     rep.extra['templates'] = len(ctx.prog.templates)
     rep.extra['template_tags'] = sum(len(t.tags) for t in ctx.prog.templates.values())
 
@@ -315,6 +321,8 @@ def check_C15(ctx, rep):
     rep.not_decided += ['that each returned row is a legal move; leftmost/rightmost order of the derivation']
     _worklists_in(ctx, rep, ['nfa_algorithms.nfa_find_epsilon_path', 'pda_algorithms.pda_find_epsilon_path'])
     work.check_worklists(ctx, rep, F(ctx, 'cfg_algorithms.cfg_derive_word', 'cfg_algorithms.cfg_derive_word.extract_derivation'))
+    for sp in ('nfa_algorithms.nfa_find_epsilon_path', 'pda_algorithms.pda_find_epsilon_path'):
+        work.check_marker_alias(ctx, rep, ctx.prog.func(sp))
     P = ctx.prog.func
     models.check_dfa_sim_column(ctx, rep, P('dfa_algorithms.dfa_simulate_word'))
     models.check_backward_word(ctx, rep, P('nfa_algorithms.nfa_simulate_word'))
@@ -368,6 +376,7 @@ def check_C19(ctx, rep):
     if state.check_flag_guarded(ctx, rep, lib) < 5:
         raise AnalysisError('fewer than 5 logging/verbose-guarded sites found')
     state.check_hidden_state(ctx, rep)
+    work.check_one_shot_iterators(ctx, rep, lib)
     rep.extra['effect_rounds'] = ctx.effects.rounds
     rep.extra['calls_resolved'] = sum(s.calls - s.unresolved for s in ctx.effects.summaries.values())
     rep.extra['calls_unresolved'] = sum(s.unresolved for s in ctx.effects.summaries.values())
@@ -380,6 +389,9 @@ def check_C20(ctx, rep):
     _worklists_in(ctx, rep, ['dfa_algorithms.dfa_isomorphic', 'dfa_algorithms.dfa_isomorphic1'])
     misc.check_symmetry(ctx, rep, ctx.prog.func('dfa_algorithms.dfa_isomorphic'))
     misc.check_symmetry(ctx, rep, ctx.prog.func('dfa_algorithms.dfa_isomorphic1'))
+    misc.check_consistency_disjunction(ctx, rep, ctx.prog.func('dfa_algorithms.dfa_isomorphic1'))
+    for sp in ('dfa_algorithms.dfa_isomorphic', 'dfa_algorithms.dfa_isomorphic1'):
+        work.check_marker_alias(ctx, rep, ctx.prog.func(sp))
     _effect_on(ctx, rep, ['dfa_algorithms.dfa_isomorphic', 'dfa_algorithms.dfa_isomorphic1'], shared=False)
 
 
